@@ -1,1 +1,232 @@
-/- C08 — property theorems (stub: the slice is not built yet). -/
+import GB.C08.Proofs
+import GB.Generated.Facts
+/-
+  C08 — gRPC-Web framing is lossless and always ends with exactly one status trailer.
+  Property theorems only; helper lemmas live in Proofs.lean.
+
+  Model (GB/C08/Model.lean) = webbridge/grpcweb.go after the two `fix:` commits of this slice;
+  Spec (GB/C08/Spec.lean) = what a gRPC-Web client does: frame encoder, an independent strict response
+  decoder, trailer parsing, percent-decoding. The message codec is the identity on payload bytes (see Model).
+-/
+open GB GB.C08
+
+/-! ### facts ties: the constants and guards the model hard-codes are the ones in the source now -/
+
+/-- header size 5, limit 1<<22, data flag 0, trailer flag 0x80, both headers are 5 bytes, the guards of
+    recv are `length < 1` (empty message) and `length > maxRecvMessageSize` (reject), the body buffer
+    holds the whole declared length (no `min`) -/
+theorem C08_facts_framing :
+    GB.Generated.grpcwebHeaderLen = hdrLen ∧ GB.Generated.grpcwebMaxMsg = maxMsg ∧
+    GB.Generated.grpcwebDataHeader = [dataFlag.toNat, 0, 0, 0, 0] ∧
+    GB.Generated.grpcwebTrailerHeader = [trailerFlag.toNat, 0, 0, 0, 0] ∧
+    GB.Generated.grpcwebRecvGuards = ["length < 1", "length > maxRecvMessageSize"] ∧
+    GB.Generated.grpcwebRecvAlloc = "length" := by
+  decide
+
+/-- OnMessage: flow-control byte test, payload at offset 6 from `>= 6` bytes on, a bare byte is not an error -/
+theorem C08_facts_websocket :
+    GB.Generated.grpcwebWSGuards = ["len(data) > 0", "len(data) >= 6", "len(data) != 1", "len(data) >= 6"] ∧
+    GB.Generated.grpcwebWSSlices = ["stream.closed = data[0] == 1", "data[6:]"] ∧ wsOff = 6 := by
+  decide
+
+/-- trailer lines are `"%s: %s\r\n"`, the two keys are set from strconv.Itoa(code) and url.PathEscape(message);
+    no WriteHeader call on the gRPC-Web HTTP path, so the status is always 200 -/
+theorem C08_facts_trailer_and_status :
+    GB.Generated.grpcwebTrailerFormat = ["%s: %s\r\n"] ∧
+    GB.Generated.grpcwebTrailerSets =
+      ["md.Set(\"grpc-status\", strconv.Itoa(int(st.Code())))", "md.Set(\"grpc-message\", url.PathEscape(st.Message()))"] ∧
+    GB.Generated.grpcwebWriteHeaderCalls = 0 ∧ httpStatus = 200 := by
+  decide
+
+/-! ### request side (HTTP body) -/
+
+/-- Lossless, in order, for any number of messages of any size 0..limit: the Recv calls return exactly the
+    client's messages and then io.EOF. (`k` extra calls are never made: the trace stops at EOF.) -/
+theorem C08_req_roundtrip (ms : List Bytes) (h : ∀ m ∈ ms, m.length ≤ maxMsg) (k : Nat) :
+    recvTrace (ms.length + (k + 1)) (frames ms) = ms.map RecvRes.msg ++ [RecvRes.eof] := by
+  have h32 : ∀ m ∈ ms, m.length < 4294967296 := fun m hm => by have := h m hm; simp only [maxMsg] at this; omega
+  have := recvTraceL_frames maxMsg ms [] (k + 1) h32 h
+  simp only [List.append_nil] at this
+  unfold recvTrace
+  rw [this]
+  simp [recvTraceL, recvL]
+
+/-- Independent of chunking: however the body reader hands out the byte stream (`cs` = the successive
+    Read results), the two `io.ReadFull` calls per message see the same thing as on the whole stream. -/
+theorem C08_req_chunking (L n : Nat) (cs : List Bytes) :
+    recvChunksTraceL L n cs = recvTraceL L n cs.flatten :=
+  recvChunksTraceL_eq L n cs
+
+/-- … hence any chunking of a well-formed request delivers exactly the client's messages. -/
+theorem C08_req_roundtrip_chunked (ms : List Bytes) (h : ∀ m ∈ ms, m.length ≤ maxMsg) (k : Nat)
+    (cs : List Bytes) (hcs : cs.flatten = frames ms) :
+    recvChunksTraceL maxMsg (ms.length + (k + 1)) cs = ms.map RecvRes.msg ++ [RecvRes.eof] := by
+  rw [C08_req_chunking, hcs]
+  exact C08_req_roundtrip ms h k
+
+/-- Oversize frames are rejected with an error (ResourceExhausted), after the well-formed messages before
+    it were delivered intact; nothing of the oversize frame is delivered. -/
+theorem C08_oversize_rejected (ms : List Bytes) (h : ∀ m ∈ ms, m.length ≤ maxMsg) (big rest : Bytes)
+    (hbig : maxMsg < big.length) (h32 : big.length < 4294967296) (k : Nat) :
+    recvTrace (ms.length + (k + 1)) (frames ms ++ (frame big ++ rest)) =
+      ms.map RecvRes.msg ++ [RecvRes.err RecvErr.oversize] ∧ RecvErr.oversize.code = 8 := by
+  have h32' : ∀ m ∈ ms, m.length < 4294967296 := fun m hm => by have := h m hm; simp only [maxMsg] at this; omega
+  have := recvTraceL_frames maxMsg ms (frame big ++ rest) (k + 1) h32' h
+  unfold recvTrace
+  rw [this]
+  simp [recvTraceL, recvL_oversize maxMsg big rest h32 hbig, RecvErr.code]
+
+/-- Never truncated, for *every* byte stream (malformed ones included): whatever recv hands out as a message
+    is one complete frame — the 5-byte header, exactly the declared number of bytes, within the limit —
+    and the next recv continues right behind it. -/
+theorem C08_recv_never_truncates (s m r : Bytes) (h : recv s = (RecvRes.msg m, r)) :
+    ∃ f a b c d, s = f :: a :: b :: c :: d :: (m ++ r) ∧ be32 a b c d = m.length ∧ m.length ≤ maxMsg :=
+  recvL_sound maxMsg s m r h
+
+/-- … and for whole traces: for every byte stream (well-formed or not) and any number of Recv calls, the
+    messages handed to the forwarder are, in order, the payloads of complete consecutive frames at the start
+    of the stream (any flag bytes `fl`), each within the limit — nothing altered, invented, merged or cut. -/
+theorem C08_recv_trace_sound (n : Nat) (s : Bytes) :
+    ∃ fl : List UInt8, fl.length = (msgsOf (recvTrace n s)).length ∧
+      ∃ rest, s = (List.zipWith frameF fl (msgsOf (recvTrace n s))).flatten ++ rest ∧
+      ∀ m ∈ msgsOf (recvTrace n s), m.length ≤ maxMsg :=
+  recvTraceL_sound maxMsg n s
+
+/-- What fix D7 removed (shown with limit 2 so the kernel can evaluate it): the old code delivered the first
+    `limit` bytes of an oversize frame as the message and took the remainder for the next header; the
+    fixed model rejects the frame. -/
+theorem C08_prefix_truncated_oversize :
+    recvTracePreFixL 2 3 (frame [1, 2, 3] ++ frame [9]) =
+      [RecvRes.msg [1, 2], RecvRes.msg [], RecvRes.err RecvErr.header] ∧
+    recvTraceL 2 3 (frame [1, 2, 3] ++ frame [9]) = [RecvRes.err RecvErr.oversize] := by
+  decide
+
+/-! ### request side (grpc-websockets) -/
+
+/-- Lossless, in order, any sizes (0 included; the length bytes are not even looked at), io.EOF after the
+    finish marker, whatever the client sends after it. -/
+theorem C08_ws_roundtrip (mdOk : Bytes → Bool) (hdr : Bytes) (hok : mdOk hdr = true)
+    (ms : List Bytes) (junk : List Bytes) (k : Nat) :
+    wsRecvTrace (ms.length + (k + 1)) (wsEvents mdOk {} (hdr :: (ms.map wsFrame ++ wsFinish :: junk))) =
+      ms.map RecvRes.msg ++ [RecvRes.eof] :=
+  ws_roundtrip mdOk hdr hok ms junk k
+
+/-- After the finish marker every further client message is ignored. -/
+theorem C08_ws_ignored_after_finish (mdOk : Bytes → Bool) (st : WS) (hc : st.closed = true) (ds : List Bytes) :
+    wsEvents mdOk st ds = [] :=
+  wsEvents_closed mdOk st hc ds
+
+/-- A WebSocket message of at least 6 bytes always delivers exactly its bytes from offset 6 (no limit, no
+    truncation); shorter ones deliver an error unless it is a bare flow-control byte. -/
+theorem C08_ws_onMessage_cases (mdOk : Bytes → Bool) (data : Bytes) :
+    let evs := (onMessage mdOk { receivedMD := true, closed := false } data).2
+    (6 ≤ data.length → evs.head? = some (WSEv.msg (data.drop 6))) ∧
+    (data.length = 0 → evs = [WSEv.err RecvErr.flow]) ∧
+    (2 ≤ data.length → data.length ≤ 5 → evs.head? = some (WSEv.err RecvErr.wsHeader)) := by
+  refine ⟨fun h => ?_, fun h => ?_, fun h2 h5 => ?_⟩
+  · simp [onMessage, wsOff, h]
+  · have : data = [] := List.eq_nil_of_length_eq_zero h
+    subst this; simp [onMessage, wsOff]
+  · cases data with
+    | nil => simp at h2
+    | cons b bs =>
+      simp only [List.length_cons] at h2 h5
+      have h6 : ¬ 6 ≤ bs.length + 1 := by omega
+      have h1 : ¬ bs.length = 0 := by omega
+      simp [onMessage, wsOff, h6, h1]
+
+/-- What fix D8 removed: the old code dropped the empty message (exactly 6 bytes) and never delivered the
+    framing errors it built (the call then hung until the client gave up). -/
+theorem C08_prefix_ws_dropped_empty_and_errors :
+    wsRecvTrace 3 (wsEventsWith (onMessagePreFix (fun _ => true)) {} [[], wsFrame [7], wsFrame [], wsFinish]) =
+      [RecvRes.msg [7], RecvRes.eof] ∧
+    wsRecvTrace 3 (wsEvents (fun _ => true) {} [[], wsFrame [7], wsFrame [], wsFinish]) =
+      [RecvRes.msg [7], RecvRes.msg [], RecvRes.eof] ∧
+    wsRecvTrace 1 (wsEventsWith (onMessagePreFix (fun _ => true)) {} [[], [0, 0]]) = [] ∧
+    wsRecvTrace 1 (wsEvents (fun _ => true) {} [[], [0, 0]]) = [RecvRes.err RecvErr.wsHeader] := by
+  decide
+
+/-- A rejected header message ends the call: whatever else the client has sent (and the reader has already
+    buffered) produces no event — no metadata is accepted later, nothing reaches the forwarder. -/
+theorem C08_ws_bad_header_ends_call (mdOk : Bytes → Bool) (h : Bytes) (hbad : mdOk h = false) (ds : List Bytes) :
+    wsEvents mdOk {} (h :: ds) = [WSEv.badMD] := by
+  have e : onMessage mdOk {} h = ({ receivedMD := false, closed := true }, [WSEv.badMD]) := by
+    simp [onMessage, hbad]
+  have := wsEvents_closed mdOk { receivedMD := false, closed := true } rfl ds
+  unfold wsEvents at this ⊢
+  simp [wsEventsWith, e, this]
+
+/-- What fix D8b removed: after the InvalidArgument trailer for a bad header, a buffered empty message was
+    accepted as (empty) metadata and the call was routed and forwarded all the same. -/
+theorem C08_prefix_ws_call_started_after_rejection :
+    wsEventsWith (onMessagePreFix (fun d => d.isEmpty)) {} [[120], [], wsFrame [7]] =
+      [WSEv.badMD, WSEv.md [], WSEv.msg [7]] ∧
+    wsEvents (fun d => d.isEmpty) {} [[120], [], wsFrame [7]] = [WSEv.badMD] := by
+  decide
+
+/-! ### response side -/
+
+/-- `pctDecode ∘ url.PathEscape = id` on every byte string (non-ASCII, control bytes, `%`, CR LF …). -/
+theorem C08_pct (b : Bytes) : pctDecode (pathEscape b) = some b :=
+  pct_roundtrip b
+
+/-- url.PathEscape emits printable non-space ASCII only, so no status message can break the trailer's line
+    structure or smuggle in another `grpc-status` line. -/
+theorem C08_escape_is_printable (b : Bytes) : ∀ c ∈ pathEscape b, 33 ≤ c ∧ c ≤ 126 :=
+  pathEscape_printable b
+
+/-- The HTTP response: for every list of messages, every final status (any code, any message bytes), every
+    (line-clean) trailer metadata of the target and every map iteration order `tr` of the trailer metadata,
+    the independent decoder reads back exactly the messages followed by exactly one trailer frame, last,
+    which states exactly the call's outcome. -/
+theorem C08_resp_shape (ms : List Bytes) (md tr : MD) (code : Nat) (msg : Bytes)
+    (hms : ∀ m ∈ ms, m.length < 4294967296) (hclean : ∀ kv ∈ md, CleanKV kv)
+    (hperm : tr.Perm (trailerWithStatus md code msg)) (hsize : (trailerBlock tr).length < 4294967296) :
+    decodeBody (respondHTTPWith ms tr) = some (ms, trailerBlock tr) ∧
+    TrailerSays (trailerBlock tr) code msg ∧ httpStatus = 200 :=
+  ⟨decodeBody_respond ms tr hms hsize, trailerOutcome_trailerWithStatus md tr code msg hclean hperm, rfl⟩
+
+/-- The routing-failure path (`writeTrailerWithStatus(rw, metadata.MD{}, status.Convert(err))`): no data
+    frame, one trailer frame stating the routing error; still HTTP 200. -/
+theorem C08_resp_routing_failure (code : Nat) (msg : Bytes)
+    (hsize : (trailerBlock (trailerWithStatus [] code msg)).length < 4294967296) :
+    ∃ block, decodeBody (respondHTTP [] [] code msg) = some ([], block) ∧ TrailerSays block code msg ∧ httpStatus = 200 :=
+  ⟨_, (C08_resp_shape [] [] _ code msg (by simp) (by simp) (List.Perm.refl _) hsize).1,
+      (C08_resp_shape [] [] _ code msg (by simp) (by simp) (List.Perm.refl _) hsize).2⟩
+
+/-- The WebSocket response: one message per frame; a header frame first iff there is at least one message,
+    then the messages, then exactly one trailer message, last, stating the outcome (then close 1000). -/
+theorem C08_ws_resp_shape (header : MD) (ms : List Bytes) (md tr : MD) (code : Nat) (msg : Bytes)
+    (hh : (trailerBlock header).length < 4294967296)
+    (hms : ∀ m ∈ ms, m.length < 4294967296) (hclean : ∀ kv ∈ md, CleanKV kv)
+    (hperm : tr.Perm (trailerWithStatus md code msg)) (hsize : (trailerBlock tr).length < 4294967296) :
+    decodeWS (wsRespondWith header ms tr) =
+      some (if ms = [] then none else some (trailerBlock header), ms, trailerBlock tr) ∧
+    TrailerSays (trailerBlock tr) code msg ∧ wsCloseCode = 1000 :=
+  ⟨decodeWS_respond header ms tr hh hms hsize, trailerOutcome_trailerWithStatus md tr code msg hclean hperm, rfl⟩
+
+/-- A target trailer that tries to set `grpc-status`/`grpc-message` itself is overridden: the outcome stated
+    is the call's, and it is stated once. (Instance of `C08_resp_shape`, spelled out.) -/
+theorem C08_trailer_overrides_target_status (v w : Bytes) (hv : (13 : UInt8) ∉ v) (hw : (13 : UInt8) ∉ w)
+    (code : Nat) (msg : Bytes) :
+    TrailerSays (trailerBlock (trailerWithStatus [(kStatus, v), (kMessage, w)] code msg)) code msg := by
+  apply trailerOutcome_trailerWithStatus _ _ code msg _ (List.Perm.refl _)
+  intro kv hkv
+  simp only [List.mem_cons, List.not_mem_nil, or_false] at hkv
+  rcases hkv with rfl | rfl
+  · exact ⟨kStatus_clean.1, kStatus_clean.2, hv⟩
+  · exact ⟨kMessage_clean.1, kMessage_clean.2, hw⟩
+
+/-! ### non-vacuity -/
+
+-- two messages, one of them empty, and EOF
+example : recvTrace 3 (frames [[1, 2], []]) = [.msg [1, 2], .msg [], .eof] := by decide
+-- chunked byte by byte
+example : recvChunksTraceL maxMsg 2 [[0], [0, 0], [0], [1, 7]] = [.msg [7], .eof] := by decide
+-- a status message with CR LF, '%', a non-ASCII byte: "a\r\n%é"
+example : pathEscape [97, 13, 10, 37, 195, 169] = [97, 37, 48, 68, 37, 48, 65, 37, 50, 53, 37, 67, 51, 37, 65, 57] := by decide
+example : trailerOutcome (trailerBlock (trailerWithStatus [] 5 [97, 13, 10, 37])) = some (5, [97, 13, 10, 37]) := by decide
+example : decodeBody (respondHTTP [[1], []] [] 0 []) = some ([[1], []], trailerBlock (trailerWithStatus [] 0 [])) := by decide
+-- WebSocket: header, an empty message, finish, ignored junk
+example : wsRecvTrace 5 (wsEvents (fun _ => true) {} [[], wsFrame [], wsFinish, wsFrame [1]]) = [.msg [], .eof] := by decide
+example : CleanKV ([120, 45, 116], [118, 49]) := by unfold CleanKV; decide
